@@ -124,8 +124,9 @@ def c10Reflow (j : Json) : Except String Json := do
     (start, text start, text end, stop, strong) the Lean specification of CommonMark 6.2 computes for `s` -/
 def c06Spec (j : Json) : Except String Json := do
   let s ← Driver.getStr j "text"
-  let spans := Spec.Emphasis.spans s
-  pure (Json.mkObj [("plain", Json.bool (Spec.Emphasis.plain s)), ("stdWs", Json.bool (EmphRefine.stdWs s)),
+  -- the specification with backslash escapes; on texts without backslash it is the plain one (`C06_specs_coincide`)
+  let spans := Spec.EmphasisEsc.spansEsc s
+  pure (Json.mkObj [("plain", Json.bool (Spec.EmphasisEsc.plainEsc s)), ("stdWs", Json.bool (EmphRefine.stdWs s)),
     ("spans", Json.arr (spans.map (fun (a, b, c, d, st) => Json.arr #[Driver.nat a, Driver.nat b, Driver.nat c, Driver.nat d, Json.bool st])).toArray)])
 
 /-- op "c12.shape": {"doc": exported token tree} → `Doc.shapeOk`, the conclusion of `C12_parsed_shape`, evaluated on a REAL
